@@ -88,6 +88,17 @@ Stack(f) ==
       pos(k) == <<((k - 1) \div m) + 1, ((k - 1) % m) + 1>>
   IN AnyFrame([k \in 1..(n * m) |-> Tup(Levels(f.index[pos(k)[1]]) \o <<f.columns[pos(k)[2]]>>)], <<<<"i", 0>>>>,
               <<[k \in 1..(n * m) |-> CellAt(f, pos(k)[1], pos(k)[2])]>>, f.name)
+(* stack of two-level columns: the INNER columns level becomes the innermost index level (one row per source row and distinct inner  *)
+(* label, inner labels in order of first appearance); the outer labels stay as columns; cell ((row, inner), outer) is the source     *)
+(* cell at (row, (outer, inner)) where that column exists and the missing marker elsewhere - every cell exactly as it was             *)
+StackH(f) ==
+  LET outers == Dedupe([j \in 1..NCols(f) |-> f.columns[j][2][1]])
+      inners == Dedupe([j \in 1..NCols(f) |-> f.columns[j][2][2]])
+      n == NRows(f)  m == Len(inners)
+      pos(k) == <<((k - 1) \div m) + 1, ((k - 1) % m) + 1>>
+      cell(k, o) == LET c == Find(f.columns, Tup(<<outers[o], inners[pos(k)[2]]>>)) IN IF c < 0 THEN NaN ELSE CellAt(f, pos(k)[1], c + 1)
+  IN AnyFrame([k \in 1..(n * m) |-> Tup(Levels(f.index[pos(k)[1]]) \o <<inners[pos(k)[2]]>>)], outers,
+              [o \in 1..Len(outers) |-> [k \in 1..(n * m) |-> cell(k, o)]], f.name)
 (* unstack (innermost index level of a depth-2 index into the columns), as a relation: one row per distinct outer label, one column   *)
 (* per (column, inner label) pair, the cell at (outer, (c, inner)) = the source cell at ((outer, inner), c), the fill where absent   *)
 UnstackRows(f) == Dedupe([i \in 1..NRows(f) |-> f.index[i][2][1]])
@@ -167,6 +178,7 @@ JoinResult(L, R, lk, rk, kind, fill, lt, rt, composite) ==
 Apply20(cs) ==
   CASE cs.op = "set_index" -> SetIndex(cs.f, cs.lab, cs.drop)
     [] cs.op = "set_index_hierarchy" -> SetIndexHierarchy(cs.f, cs.labs, cs.drop)
+    [] cs.op = "stack_h" -> StackH(cs.f)
     [] cs.op = "set_index_hierarchy_reorder" -> SetIndexHierarchyR(cs.f, cs.labs, cs.drop, TRUE)
     [] cs.op = "unset_index" -> UnsetIndex(cs.f, cs.names)
     [] cs.op = "shift_in_rows" -> ShiftInRows(cs.f, cs.lab)
